@@ -27,10 +27,74 @@ BUDGET = {'quick': 240, 'thorough': 1500}
 def plan(tier, seed):
     n = 4000 if tier == 'quick' else 100000
     return ([{'seed': seed, 'idx': i} for i in range(n)] +
-            [{'kind': 'live', 'seed': seed, 'idx': i} for i in range(2 if tier == 'quick' else 12)])
+            [{'kind': 'live', 'seed': seed, 'idx': i} for i in range(2 if tier == 'quick' else 12)] +
+            [{'kind': 'on-demand', 'seed': seed, 'idx': i} for i in range(12 if tier == 'quick' else 120)])
 
 
 CASE_TIMEOUT = 120
+
+
+def on_demand_case(spec, res):
+    """the start that a connection to a managed socket triggers (several on-demand watchers) is a start like the
+    others: descending priority, every worker of one watcher before the next watcher begins"""
+    import socket
+    from circus.sockets import CircusSocket
+    rnd = rng_for(spec['seed'], 'C19-on-demand', spec['idx'])
+    names = ['a_od', 'b_od', 'c_od', 'd_od']
+    prios = rnd.sample([-3, 0, 1, 4, 9], 4) if spec['idx'] % 3 else [1, 5, 9, 0]     # name order is not priority order
+    h = {'kill_latency': 0.0, 'watchers': [
+        {'name': n, 'numprocesses': rnd.choice([1, 2]), 'priority': p, 'warmup_delay': rnd.choice([0, 0.2]),
+         'graceful_timeout': 0.1, 'on_demand': True, 'use_sockets': True} for n, p in zip(names, prios)] + [
+        {'name': 'plain', 'numprocesses': 1, 'graceful_timeout': 0.1, 'priority': 3}]}
+    w = simhist.new_world(h)
+    nv = len(res.viol)
+    socks = []
+
+    @gen.coroutine
+    def go():
+        ws = [simhist.make_watcher(w, c) for c in h['watchers']]
+        lsock = CircusSocket('od', host='127.0.0.1', port=0)
+        socks.append(lsock)
+        arb = w.make_arbiter(ws, sockets=[lsock])
+        yield arb.start()
+        yield w.settle(30)
+        l0 = len(w.kernel.log)
+        c = socket.create_connection(('127.0.0.1', lsock.getsockname()[1]))
+        socks.append(c)
+        yield w.check()
+        yield w.settle(60)
+        order = []
+        for e in w.kernel.log[l0:]:
+            if e[1] == 'spawn' and e[3] in [simhist.tag_of(n) for n in names]:
+                order.append(e[3])
+        res.obs['on_demand_starts_judged'] += 1
+        byprio = [simhist.tag_of(n) for n, p in sorted(zip(names, prios), key=lambda x: -x[1])]
+        seen = []
+        for t in order:
+            if not seen or seen[-1] != t:
+                seen.append(t)
+        want = [t for t in byprio if t in seen]
+        if len(seen) != len(set(seen)):
+            res.violation('C19/interleaved-start:on-demand', 'spawn order %s: a watcher began before the previous one had all '
+                          'its workers' % order)
+        elif seen != want:
+            res.violation('C19/priority-order:on-demand', 'a connection started the on-demand watchers in the order %s; '
+                          'priorities %s say %s' % (seen, dict(zip(names, prios)), want))
+        if len(seen) < 4:
+            res.inconclusive.append('on-demand start spawned only %s' % seen)
+        res.nontrivial(repr(('on-demand', tuple(prios))))
+    try:
+        w.run(go)
+        for v in res.viol[nv:]:
+            v['spec'] = dict(spec)
+    finally:
+        for s_ in socks:
+            try:
+                s_.close()
+            except Exception:
+                pass
+        w.close()
+    res.sample = res.sample or {'case': 'four on-demand watchers, one connection', 'priorities': dict(zip(names, prios))}
 
 
 def live_case(spec, res):
@@ -146,6 +210,9 @@ def gen_spec(rnd):
 
 def run_case(spec):
     res = CaseResult()
+    if spec.get('kind') == 'on-demand':
+        on_demand_case(spec, res)
+        return res
     if spec.get('kind') == 'live':
         live_case(spec, res)
         for v in res.viol:
